@@ -217,7 +217,7 @@ func VerifH_C13_rebase() {
 // transaction last, a basis equal to the tip, and memory that does not alias
 // the pool.
 //
-//verif:harness prop=C13 tier=quick replay=interp z3timeout=400 require=chain,diamond,independent bounds="pool of 3 v2 transactions in shapes {independent, chain g->p->c, diamond a->b with txn spending a.out then b.out, deep chain}; basis = tip"
+//verif:harness prop=C13,C14 tier=quick replay=interp z3timeout=400 require=chain,diamond,independent bounds="pool of 3 v2 transactions in shapes {independent, chain g->p->c, diamond a->b with txn spending a.out then b.out, deep chain}; basis = tip"
 func VerifH_C13_set() {
 	newAbsPool()
 	w := &poolWorld{c: newAbsChain(), next: 1}
